@@ -644,6 +644,9 @@ func scopeInstances(scope string) []string {
 // c20Diff compares two snapshots.  mayChange = scopes (specification) the request names.
 // It returns the differences in parts that must read back as before, whether anything at all
 // changed, and reads answered with a server error.
+// c20TsvKnown reports (and records) that the tarsupervoxels root-context finding is listed as known.
+var c20TsvKnown func() bool
+
 func c20Diff(a, b *c20Snap, mayChange []string) (unnamed []string, anyChange bool, serverErrs []string) {
 	named := map[string]bool{}
 	meta := false
@@ -669,6 +672,11 @@ func c20Diff(a, b *c20Snap, mayChange []string) (unnamed []string, anyChange boo
 			continue
 		}
 		if part == "meta" && meta {
+			continue
+		}
+		// known finding (C02's, seen through C20's snapshot): tarsupervoxels keeps its blobs in the root version's
+		// context, so a well-formed POST / DELETE supervoxel/<id> at one version changes every version of the instance
+		if part == "C" && named[inst] && strings.HasPrefix(inst, "tsv") && c20TsvKnown != nil && c20TsvKnown() {
 			continue
 		}
 		unnamed = append(unnamed, fmt.Sprintf("%s: before %d %s | after %d %s", k, ea.Status, ea.Body, eb.Status, eb.Body))
